@@ -202,7 +202,7 @@ func hostPorts(c *runlib.Ctx, sh *enum.Sharder) {
 
 	// No square brackets, per the statement.
 	alpha := []string{"a", ".", ":", "%", " ", "\x00", "é", "-"}
-	ports := []int{0, 1, 80, 65535}
+	ports := []int{0, 1, 80, 255, 256, 32767, 32768, 65534, 65535}
 	enum.SeqsN(len(alpha), 0, runlib.Pick(c, 4, 6), func(seq []int) {
 		var b strings.Builder
 		for _, i := range seq {
